@@ -790,7 +790,9 @@ func assign(n *node) {
 				}
 				data := getFrame(f, level[i]).data
 				j := index[i]
-				data[j] = reflect.New(data[j].Type()).Elem()
+				if !n.child[i].redeclared {
+					data[j] = reflect.New(data[j].Type()).Elem()
+				}
 				data[j].Set(t[i])
 			}
 			return next
